@@ -93,6 +93,12 @@ GL_EXACT = [("1/2", "3/4"), ("3/4", "1/2"), ("1/2", "1/2"), ("1", "1"), ("1/2", 
             ("3/4", "1"), ("0", "3/4"), ("3/4", "0"), ("1/4", "1/2"), ("3/4", "3/4"), ("1", "0"), ("0", "0")]
 ID_SETS = [["agent_0"], ["agent_0", "agent_1"], ["agent_0", "agent_1", "agent_2"], ["agent_0", "other_0"],
            ["agent_0", "agent_1", "other_0"], ["agent_0", "other_0", "agent_1"], ["other_0", "agent_0", "agent_1"]]
+# listing order of a homogeneous group that is NOT the lexicographic order of the ids: any helper that
+# re-orders agents (sorted(), set(), ...) in only some of the tensors then pairs one agent's estimates with
+# another agent's observations.  ELEVEN: 'agent_10' sorts before 'agent_2'.
+UNSORTED_ID_SETS = [["agent_1", "agent_0"], ["agent_2", "agent_0", "agent_1"], ["agent_1", "other_0", "agent_0"],
+                    ["other_1", "agent_1", "other_0", "agent_0"], ["agent_0", "agent_2", "agent_1"]]
+ELEVEN = [f"agent_{i}" for i in range(11)]
 PATTERNS = ["none", "first", "last", "next", "d0", "random", "all", "mid"]
 
 
@@ -123,7 +129,8 @@ def gen_case(rng: random.Random, algo: str, T: int, E: int, ids, exact: bool, ve
     n = len(ids) * T * E
     if exact:
         g, l = rng.choice(GL_EXACT)
-        pool = rng.sample(range(-40, 41), n)                      # distinct values, multiples of 1/8
+        m = max(40, n)
+        pool = rng.sample(range(-m, m + 1), n)                    # distinct values, multiples of 1/8
         vals = [Fr(k, 8) for k in pool]
         rew = lambda: Fr(rng.randint(-8, 8), 4)
         nvb = frac(Fr(rng.randint(-16, 16), 4))
@@ -619,6 +626,8 @@ def case_tags(case):
     t = [f"algo-{case['algo']}", f"T-{case['T']}", f"E-{case['E']}", f"shared-{A}", f"act-{case['akind']}",
          "exact" if case["exact"] else "float", "vec" if case["vec"] else "unvec",
          f"gl-{case['gamma']},{case['lam']}"]
+    if any(m != sorted(m) for _, m in groups_of(case)):
+        t.append("group-order-not-lexicographic")
     T = case["T"]
     for a in case["ids"]:
         for e in range(case["E"]):
@@ -744,6 +753,9 @@ def structured_cases(rng: random.Random, tier: str):
         ("IPPO", 4, 3, ID_SETS[4], True), ("IPPO", 3, 2, ID_SETS[5], True), ("IPPO", 6, 4, ID_SETS[2], True),
         ("IPPO", 5, 1, ID_SETS[0], True), ("IPPO", 3, 1, ID_SETS[1], False), ("IPPO", 2, 3, ID_SETS[6], True),
         ("IPPO", 1, 1, ID_SETS[0], True), ("IPPO", 1, 2, ID_SETS[1], True),
+        ("IPPO", 2, 1, UNSORTED_ID_SETS[0], True), ("IPPO", 3, 2, UNSORTED_ID_SETS[1], True),
+        ("IPPO", 2, 2, UNSORTED_ID_SETS[2], True), ("IPPO", 2, 3, UNSORTED_ID_SETS[3], True),
+        ("IPPO", 2, 2, ELEVEN, True), ("IPPO", 3, 1, ELEVEN + ["other_0"], True),
     ]:
         cases.append(gen_case(rng, algo, T, E, ids, exact=True, vec=vec))
     n_rand = 200 if tier == "quick" else 2000
@@ -751,7 +763,10 @@ def structured_cases(rng: random.Random, tier: str):
         algo = "IPPO" if rng.random() < 0.6 else "PPO"
         T = rng.choice([1, 2, 2, 3, 3, 4, 5, 6])
         E = rng.choice([1, 2, 2, 3, 4])
-        ids = rng.choice(ID_SETS)
+        u = rng.random()
+        ids = rng.choice(UNSORTED_ID_SETS) if u < 0.25 else (ELEVEN if u < 0.29 else rng.choice(ID_SETS))
+        if algo == "IPPO" and len(ids) > 4:                 # many agents: keep the case cheap
+            T, E = min(T, 3), min(E, 2)
         vec = not (E == 1 and rng.random() < 0.3)
         cases.append(gen_case(rng, algo, T, E, ids, exact=rng.random() < 0.8, vec=vec))
     return cases
